@@ -7,11 +7,14 @@
 (*   [i, id, accepted, class, st]   st = static type of the last statement   *)
 (* Every record is consumed by one step (one state per record; the verdict  *)
 (* is computed in the action and kept in `v'), which decides:                *)
-(*   a   both accept: the relation of Static.tla must hold,                  *)
-(*       Matches(implementation's type, TypeOf)        (a-dev otherwise)     *)
+(*   a   both accept: the relation of Static.tla must hold: EQUAL types, or  *)
+(*       for a program that is FoldSensitive (named differences D1, D2, D5)  *)
+(*       Matches(implementation's type, TypeOf).  Otherwise a-dev (not even  *)
+(*       Matches) or a-narrow (Matches, not equal, not fold-sensitive)       *)
 (*   b   the specification accepts, the implementation rejects  (DEVIATION)  *)
 (*   c   the specification rejects, the implementation accepts  (DEVIATION,  *)
-(*       the dangerous kind)                                                 *)
+(*       the dangerous kind); c-fold when the program is FoldSensitive       *)
+(*       (named difference D5: not a deviation, counted)                     *)
 (*   d   both reject (classes need not agree)                                *)
 (*   fold  the implementation reports the run-time error of a constant       *)
 (*       sub-expression that failed while being folded (named difference D4  *)
@@ -35,21 +38,22 @@ N == Len(Cases)
 FoldErrors == DocErrors
 Nil == [kind |-> "nil"]
 
-Kind(c, r, i, sacc, it, st) ==
+Kind(c, r, i, sacc, it, st, sens) ==
   IF r.i # i \/ r.id # c.id THEN "tool"                                 \* records and cases out of step
   ELSE IF r.class = "render" THEN "tool"
   ELSE IF r.class = "syntax" THEN (IF sacc THEN "tool" ELSE "d-syntax")
   ELSE IF r.class \in {"parse-panic", "type-panic"} THEN "panic"
   ELSE IF ~r.accepted /\ r.class \in FoldErrors THEN "fold"
-  ELSE IF sacc /\ r.accepted THEN (IF Matches(it, st) THEN "a" ELSE "a-dev")
+  ELSE IF sacc /\ r.accepted THEN (IF it = st \/ (sens /\ Matches(it, st)) THEN "a"
+                                    ELSE IF Matches(it, st) THEN "a-narrow" ELSE "a-dev")
   ELSE IF sacc THEN "b"
-  ELSE IF r.accepted THEN "c"
+  ELSE IF r.accepted THEN (IF sens THEN "c-fold" ELSE "c")
   ELSE "d"
 \* tp: the specification's judgement of the case's program
 Verdict(c, r, i, tp) ==
-  [kind |-> Kind(c, r, i, ~IsRej(tp), IF r.accepted THEN Unwire(r.st) ELSE TNever, IF IsRej(tp) THEN TNever ELSE tp.t),
+  [kind |-> Kind(c, r, i, ~IsRej(tp), IF r.accepted THEN Unwire(r.st) ELSE TNever, IF IsRej(tp) THEN TNever ELSE tp.t, FoldSensitive(c.prog)),
    eq |-> ~IsRej(tp) /\ r.accepted /\ Unwire(r.st) = tp.t,
-   i |-> i, id |-> c.id, neg |-> c.negative,
+   sens |-> FoldSensitive(c.prog), i |-> i, id |-> c.id, neg |-> c.negative,
    spec |-> IF IsRej(tp) THEN [k |-> "reject", why |-> tp.why] ELSE Wire(tp.t),
    impl |-> IF r.accepted THEN r.st ELSE [k |-> "reject", why |-> r.class]]
 Judge(i) == Verdict(Cases[i], Rec[i], i, TypeProg(Cases[i].prog))
@@ -58,11 +62,11 @@ Dev == PrintT(<<"DEV", ToJson(v)>>) /\ FALSE
 
 Lockstep   == row > 0 => v.kind # "tool" \/ Dev
 NoPanic    == row > 0 => v.kind # "panic" \/ Dev
-RelationA  == row > 0 => v.kind # "a-dev" \/ Dev
+RelationA  == row > 0 => v.kind \notin {"a-dev", "a-narrow"} \/ Dev
 NoSpecOnly == row > 0 => v.kind # "b" \/ Dev          \* kind (b)
 NoImplOnly == row > 0 => v.kind # "c" \/ Dev          \* kind (c)
 \* reports (always true): the kind of every record; accepted pairs whose types are related but not equal
-Tally  == row > 0 => PrintT(<<"K", v.kind, v.eq>>)
+Tally  == row > 0 => PrintT(<<"K", v.kind, v.eq, v.sens>>)
 Wider  == (row > 0 /\ v.kind = "a" /\ ~v.eq) => PrintT(<<"WIDER", ToJson(v)>>)
 
 Init == row = 0 /\ v = Nil
